@@ -65,7 +65,11 @@ def handle (fields : List String) : Option String :=
     match parseFlags fl, (parseJournal j).bind Knut.Driver.C04.toDirectives with
     | some f, some ds =>
       match Performance.returns f.toFlags ds with
-      | .ok lines => "ok " ++ (if lines.isEmpty then "-" else String.intercalate "," (lines.map (fun l => s!"{l.1}:{showOpt l.2}")))
+      | .ok lines =>
+        -- a `!` marks a period with a day whose denominator `V0 + inflow` vanishes (see `Performance.illConditioned`)
+        let cond := Performance.returnsCond f.toFlags ds
+        "ok " ++ (if lines.isEmpty then "-" else String.intercalate ","
+          ((lines.zip (cond ++ List.replicate lines.length false)).map (fun (l, c) => s!"{l.1}:{showOpt l.2}{if c then "!" else ""}")))
       | .error w => "error " ++ w
       | .panic s => "panic " ++ hexStr s
     | none, _ => "bad-flags"
